@@ -932,3 +932,34 @@ package readline
 //@   requires fullok(rl) && editor.regsclean(rl.Buffers)
 //@   loop 1 invariant fullok0(rl) && clean(buffer) && 0 <= pos
 
+
+// ---------------------------------------------------------------------------------------
+// C08: the accept commands reach (*Sources).Accept with the flags the property attributes to them.
+// (*Sources).Accept's own contract says what (hold, infer, err) mean for the history sources; these
+// call-site assertions (a0 = receiver, a1.. = arguments of the matched call) carry that meaning up to
+// the commands: accept-line and accept-and-hold record (infer == false), operate-and-get-next and
+// accept-and-infer-next-history replay instead of recording (infer == true), only accept-and-hold holds.
+// What the functions called before Accept do to the heap is outside these assertions (they are about the
+// arguments only), so nothing is assumed about the completion and display engines here.
+//@ func (*Shell).acceptLineWith
+//@   props C08
+//@   noinline
+//@   assume_nopanic only the arguments that reach Accept are claimed here; the panic-freedom of this command (C01) is not (the completion engine's Reset and the display are outside the functions under contract)
+//@   requires fullok(rl) && histready(rl)
+//@   at_call Sources).Accept [flags-forwarded] a1 == hold && a2 == infer
+//@ func (*Shell).acceptLine
+//@   props C08
+//@   requires fullok(rl) && histready(rl)
+//@   at_call acceptLineWith [records-no-hold] !a1 && !a2
+//@ func (*Shell).acceptAndHold
+//@   props C08
+//@   requires fullok(rl) && histready(rl)
+//@   at_call acceptLineWith [records-and-holds] !a1 && a2
+//@ func (*Shell).acceptLineAndDownHistory
+//@   props C08
+//@   requires fullok(rl) && histready(rl)
+//@   at_call acceptLineWith [replays] a1 && !a2
+//@ func (*Shell).acceptAndInferNextHistory
+//@   props C08
+//@   requires fullok(rl) && histready(rl)
+//@   at_call acceptLineWith [replays] a1 && !a2
